@@ -79,6 +79,8 @@ fn alias_check(b: &AnyBuf, rng: &mut Rng, rep: &mut Report) -> Option<String> {
     None
 }
 
+static REFUSED_IN_HISTORIES: std::sync::atomic::AtomicU64 = std::sync::atomic::AtomicU64::new(0);
+
 fn histories(opts: &Opts, rep: &mut Report) {
     let mut rng = Rng::new(opts.shard_seed() ^ 0xC18);
     let rounds = opts.budget(16 * 60, 16 * 3000);
@@ -102,6 +104,7 @@ fn histories(opts: &Opts, rep: &mut Report) {
                 let mut live: Vec<AnyBuf> = Vec::new();
                 let mut created = 0u64;
                 let mut unwinds = 0u64;
+                let mut refused = 0u64;
                 let mut sub = Report::new("C18");
                 let ops = rng.range(20, 200 / nthreads.max(1) + 20);
                 for _ in 0..ops {
@@ -112,6 +115,20 @@ fn histories(opts: &Opts, rep: &mut Report) {
                         peak.fetch_max(l, std::sync::atomic::Ordering::SeqCst);
                         if rng.chance(1, 3) {
                             if let Some(e) = alias_check(live.last().unwrap(), &mut rng, &mut sub) {
+                                return Ok((created, 0, unwinds, Some(e)));
+                            }
+                        }
+                    } else if rng.chance(1, 8) {
+                        // A creation that has to be refused (size not a page multiple),
+                        // concurrently with the other threads' creations and drops: its
+                        // clean-up must not touch anybody else's mapping.
+                        let bad = rec::PAGE * rng.range(1, 4) + 2048;
+                        match Buffer::<u8>::new(bad) {
+                            Err(_) => refused += 1,
+                            Ok(_) => return Err(format!("Buffer::<u8>::new({bad}) succeeded")),
+                        }
+                        if let Some(b) = live.last() {
+                            if let Some(e) = alias_check(b, &mut rng, &mut sub) {
                                 return Ok((created, 0, unwinds, Some(e)));
                             }
                         }
@@ -136,6 +153,8 @@ fn histories(opts: &Opts, rep: &mut Report) {
                 }
                 live_total.fetch_sub(live.len(), std::sync::atomic::Ordering::SeqCst);
                 drop(live);
+                let _ = refused;
+                REFUSED_IN_HISTORIES.fetch_add(refused, std::sync::atomic::Ordering::SeqCst);
                 Ok((created, sub.counters.get("alias_probes").copied().unwrap_or(0), unwinds, None))
             }));
         }
@@ -155,6 +174,7 @@ fn histories(opts: &Opts, rep: &mut Report) {
             }
         }
         rep.count("streams_created", created);
+        rep.count("refused_creations_during_histories", REFUSED_IN_HISTORIES.swap(0, std::sync::atomic::Ordering::SeqCst));
         rep.max("live_streams", peak.load(std::sync::atomic::Ordering::SeqCst) as u64);
         rep.set("thread_counts", nthreads.to_string());
         // quiescent point
